@@ -208,7 +208,8 @@ def run_case(case: dict) -> dict:
     u = float(emb.step)
     q = lambda v: int(round(float(v) / u))                                    # noqa: E731
     Rectangle.undefine_epsilon()
-    s = sp.Spectral(build_tree(case, emb))       # an exception here is a harness problem (invalid netlist built)
+    tree = build_tree(case, emb)
+    s = sp.Spectral(tree)                        # an exception here is a harness problem (invalid netlist built)
     names = [m.name for m in s.modules]
     idx = {nm: i + 1 for i, nm in enumerate(names)}
     assert names == [f"M{i + 1}" for i in range(len(names))]
@@ -224,7 +225,20 @@ def run_case(case: dict) -> dict:
         edges = [[int(round(e.weight * 10000)), [idx[m.name] for m in e.modules]] for e in s.edges]
         return area, rects, edges
 
-    area0, rects0, edges0 = snap()
+    _a_loaded, rects0, _e_loaded = snap()
+    # the reference for "areas and nets unchanged" is the INPUT document, not the object after loading (building the
+    # graph in the constructor is part of spectral placement)
+    qa = lambda a: int(round(a / (u * u) / 1000))                             # noqa: E731
+    area0 = []
+    for d in tree["Modules"].values():
+        if "area" in d:
+            vals = [d["area"][k] for k in sorted(d["area"])] if isinstance(d["area"], dict) else [d["area"]]
+            tot = sum(d["area"].values()) if isinstance(d["area"], dict) else d["area"]
+        else:
+            tot = sum(r[2] * r[3] for r in d["rectangles"])
+            vals = [tot]
+        area0.append([qa(tot)] + [qa(v) for v in vals])
+    edges0 = [[int(round(w * 10000)), list(pins)] for w, pins in case["nets"]]
     kind = [m["kind"] for m in case["mods"]]
     # consistency of the harness's view with FRAME's (soft / hard / fixed as loaded)
     for m, k in zip(s.modules, kind):
